@@ -566,6 +566,15 @@ class Inliner(object):
         inner = ast.copy_location(ast.If(test=later[0] if len(later) == 1 else ast.copy_location(ast.BoolOp(op=ast.And(), values=later), s.test), body=s.body, orelse=[]), s)
         s.test = s.test.values[0]
         s.body = self.stmt(inner, cls, qual, depth, closures)
+    if isinstance(s, ast.If) and isinstance(s.test, ast.BoolOp) and isinstance(s.test.op, ast.Or) and not s.orelse and len(s.body) <= 3 \
+       and not any(isinstance(x, FUNC + (ast.ClassDef, ast.Lambda)) for b_ in s.body for x in ast.walk(b_)):
+      # if A or B: X   ==   if A: X  else: if B: X      (X is small and is copied; lets a helper call in B be hoisted)
+      later = s.test.values[1:]
+      if any(self._first_call(v, cls, closures) is not None for v in later):
+        inner = ast.copy_location(ast.If(test=later[0] if len(later) == 1 else ast.copy_location(ast.BoolOp(op=ast.Or(), values=later), s.test), body=copy.deepcopy(s.body), orelse=[]), s)
+        s.test = s.test.values[0]
+        s.orelse = self.stmt(inner, cls, qual, depth, closures)
+        for o in s.orelse: ast.fix_missing_locations(o)
     # which expression of the statement is evaluated first?
     if isinstance(s, (ast.Expr, ast.Return, ast.Assign, ast.AugAssign, ast.AnnAssign)): holder, field = s, 'value'
     elif isinstance(s, ast.If): holder, field = s, 'test'
